@@ -115,10 +115,18 @@ func genPassthrough(r *rand.Rand, i int) J {
 			if found {
 				continue
 			}
+			if r.Intn(3) == 0 {
+				v += pick(r, []string{" ", "\n", " \t ", "  "}) // a value that ends in white space keeps it
+			}
 			env = append(env, []any{bs(name), vStr(v)})
 			prog = append(prog, nObj(eVar(name)))
 		}
 		lastText = false
+		// blank text and then a tag with a left hyphen: the hyphen removes that blank text, not the end of the value
+		// or of the raw body before it
+		if r.Intn(3) == 0 {
+			prog = append(prog, nText(pick(r, []string{" ", "\n", " \n ", "\t"})), J{"t": "trimL"}, J{"t": "assign", "name": bs("zq"), "e": eLit(vInt(1))})
+		}
 	}
 	return J{"kind": "render", "prog": prog, "env": env}
 }
